@@ -18,7 +18,8 @@ Chr(s, i) == s[i][1]
 IsWord(c) == (c >= 48 /\ c <= 57) \/ (c >= 65 /\ c <= 90) \/ (c >= 97 /\ c <= 122) \/ c = 95
 WordAt(s, i) == i >= 1 /\ i <= Len(s) /\ IsWord(Chr(s, i))
 \* simple case folding for the alphabets used here: ASCII letters, and the Latin-1 pair 0xC9/0xE9
-Lower(c) == IF c >= 65 /\ c <= 90 THEN c + 32 ELSE IF c = 201 THEN 233 ELSE c
+\* plus the two non-ASCII runes that fold to ASCII letters: U+017F (long s) ~ s, U+212A (Kelvin sign) ~ k
+Lower(c) == IF c >= 65 /\ c <= 90 THEN c + 32 ELSE IF c = 201 THEN 233 ELSE IF c = 383 THEN 115 ELSE IF c = 8490 THEN 107 ELSE c
 EqFold(a, b, fold) == IF fold THEN Lower(a) = Lower(b) ELSE a = b
 BackrefBase == 57344
 IsBackref(r) == r >= BackrefBase /\ r < BackrefBase + 10
